@@ -660,8 +660,14 @@ func newFo(cfg FoCfg, s *sched, stat *StatRec, t0 func() time.Time) foInst {
 
 	if cfg.Generic {
 		be := NewBackend("ShardedMapOf", bc)
+
+		var rw cache.ReadWriterOf[string] = &gateRWOf{s: s, inner: be.Raw().(*cache.ShardedMapOf[string]), t0: t0}
+		if cfg.Backend == "Default" {
+			rw = nil // FailoverOf builds its own ShardedMapOf from BackendConfig; `be` stays empty
+		}
+
 		fc := cache.FailoverConfigOf[string]{
-			Name: foName, Backend: &gateRWOf{s: s, inner: be.Raw().(*cache.ShardedMapOf[string]), t0: t0},
+			Name: foName, Backend: rw, BackendConfig: bc,
 			FailedUpdateTTL: ttl(cfg.FailTTL), UpdateTTL: ttl(cfg.UpdTTL), SyncUpdate: cfg.SyncUpdate,
 			SyncRead: cfg.SyncRead, MaxStaleness: time.Duration(cfg.MaxStale) * u, FailHard: cfg.FailHard,
 			Logger: logger, Stats: st, ObserveMutability: cfg.Mutability,
@@ -680,7 +686,7 @@ func newFo(cfg FoCfg, s *sched, stat *StatRec, t0 func() time.Time) foInst {
 	}
 
 	realKind := kind
-	if kind == "NoOp" {
+	if kind == "NoOp" || kind == "Default" {
 		realKind = "ShardedMap"
 	}
 
@@ -691,8 +697,13 @@ func newFo(cfg FoCfg, s *sched, stat *StatRec, t0 func() time.Time) foInst {
 		inner = cache.NoOp{} // `be` stays empty and is only there for the snapshot
 	}
 
+	var rw cache.ReadWriter = &gateRW{s: s, inner: inner, t0: t0}
+	if kind == "Default" {
+		rw = nil // Failover builds its own ShardedMap from BackendConfig; `be` stays empty
+	}
+
 	fc := cache.FailoverConfig{
-		Name: foName, Backend: &gateRW{s: s, inner: inner, t0: t0},
+		Name: foName, Backend: rw, BackendConfig: bc,
 		FailedUpdateTTL: ttl(cfg.FailTTL), UpdateTTL: ttl(cfg.UpdTTL), SyncUpdate: cfg.SyncUpdate,
 		SyncRead: cfg.SyncRead, MaxStaleness: time.Duration(cfg.MaxStale) * u, FailHard: cfg.FailHard,
 		Logger: logger, Stats: st, ObserveMutability: cfg.Mutability,
